@@ -97,7 +97,7 @@ def gen(chk):
         else:
             t = b"/" + b"/".join(rng.choice(tsegk) for _ in range(rng.randint(1, 5)))
         if rng.random() < 0.2:
-            t += b"?" + rng.choice([b"q=1", b"a/b", b""])
+            t += b"?" + rng.choice([b"q=1", b"a/b", b"", b"x=1?y=2", b"?", b"r=/a?n=/b", b"?#"])
         if rng.random() < 0.15:
             t += b"#" + rng.choice([b"frag", b"x?y", b""])
         if t == b"":
@@ -144,6 +144,13 @@ def run(chk):
                 exp = ",".join(hexs(x) for x in unhex(t[1]).split(b"/"))
                 if i != exp:
                     chk.violation("split() does not return the pieces between the delimiters", {"case": c, "impl": i, "expected": exp}, True, "split-pieces")
+            if t[0] == "uripath":
+                u = unhex(t[1])
+                cut = min([k for k, ch in enumerate(u) if ch in b"?#"] + [len(u)])
+                exp = hexs(u[:cut]) or "-"
+                if i != exp:
+                    chk.violation("request_uri: the path of the target is %s, everything in front of the first '?' or '#' is %s" % (i, exp),
+                                  {"case": c, "impl": i, "expected": exp}, True, "uri-path")
             continue
         regs, meth, tgt = md
         if not all(wf_pattern(p) for _, p, _ in regs):
